@@ -222,7 +222,7 @@ def execute(case):
             raise RuntimeError(f"scenario builder failed in a worker: {fam} {[v['outcome'] for v in rows.values()]}")
         r.labels.append(f"fam:{fam}")
         r.labels.append(f"outcome:{str(base['outcome']).split(':')[0]}")
-        if base["n"] >= 50 and base.get("later") and scenarios.TRAITS.get(fam):
+        if base["n"] >= 50 and base.get("later") and scenarios.TRAITS.get(base.get("base_family", fam)):
             nt += 1
         for kind, key in (("deliveries", "ddig"), ("stats", "sdig")):
             d = {t: rows[t][key] for t in tags}
